@@ -26,4 +26,11 @@ type CodeGenContext struct {
 	SourceFileName   string   // SourceFileName フィールドを追加
 	VS               *variantstack.VariantStack
 	BitMode          cpu.BitMode
+	BitModeChanges   []BitModeChange // [BITS n] が現れた位置 (ocode の番号) とそのモード
+}
+
+// BitModeChange は、Index 番目以降の ocode に適用されるビットモードの切り替えを表します。
+type BitModeChange struct {
+	Index int
+	Mode  cpu.BitMode
 }
